@@ -417,6 +417,25 @@ def execute(config, chooser):
         if sorted(map(id, legacy_before)) != sorted(map(id, legacy_after)):
             problems.append(("observers", "legacy log observers before %r, after %r" % (legacy_before, legacy_after)))
         obs = (tuple(ctx.decisions), outcome, interrupt_at, tuple(seq))
+        if (interrupted or m["timed_out"]) and not problems and ncleanups != "dup":
+            # the run was abandoned (cleanups may never have been reached): the SAME test object run
+            # again, nothing going wrong this time, runs its own stages and nothing left over
+            ctx3 = Ctx(_AlwaysDefault(), reactor)
+            case._ctx = ctx3
+            result3 = rec.Ext()
+            reactor.scrub()
+            reactor.arm(_AlwaysDefault(), max_interrupts=0, ties=False)
+            try:
+                case.run(result3)
+                outs3 = [e[0] for e in result3.log if e[0] in rec.OUTCOMES]
+            except BaseException as e:
+                outs3 = ["run() raised %s" % type(e).__name__]
+            reactor.disarm()
+            seq3 = [s for s, _ in ctx3.stage_log]
+            want3 = model(ncleanups, [], 100.0)["sequence"]
+            if outs3 != ["addSuccess"] or seq3 != want3:
+                problems.append(("rerun-after-abandoned-run", "the same test object run again after its run was abandoned: outcomes %r, stages %r (expected addSuccess, %r)" % (outs3, seq3, want3)))
+            case._ctx = ctx
         if any(k in ("logerr", "logerr_new") for _, k in ctx.decisions) and (interrupted or m["timed_out"]):
             # the run was abandoned with an error logged and not flushed: the NEXT test (same
             # process, same runner) must not inherit it
